@@ -228,3 +228,24 @@ theorem invP_run (s : RState) (ops : List Op) (h : s.reg.InvP) : (run s ops).1.r
 end RegCmd
 
 end Duck
+
+namespace Duck
+
+namespace KV
+variable {α : Type}
+
+theorem containsKey_put (m : KV α) (k : Str) (v : α) (k' : Str) :
+    (m.put k v).containsKey k' = if k' = k then true else m.containsKey k' := by
+  unfold containsKey
+  rw [get_put]
+  split <;> rfl
+
+theorem containsKey_erase (m : KV α) (k k' : Str) :
+    (m.erase k).containsKey k' = if k' = k then false else m.containsKey k' := by
+  unfold containsKey
+  rw [get_erase]
+  split <;> rfl
+
+end KV
+
+end Duck
